@@ -45,11 +45,11 @@ func genSignRoundTrip(ctx *Ctx, emit func(Case)) {
 		lens = append(lens, smallLen(r))
 	}
 	if ctx.Quick {
-		lens = append(lens, mib, mib, mib+1, mib+1)
+		lens = append(lens, mib, mib, mib+1, mib+1, mib+50, mib+50)
 	} else {
 		lens = append(lens, boundaryLens...)
 		lens = append(lens, boundaryLens...)
-		lens = append(lens, mib)
+		lens = append(lens, mib, mib+50, mib+50, mib+50, mib+50)
 	}
 	for k, n := range lens {
 		v := saltpack.Version{Major: 1 + k%2, Minor: 0}
@@ -60,6 +60,19 @@ func genSignRoundTrip(ctx *Ctx, emit func(Case)) {
 		out := goExec(line)
 		emit(Case{Stream: "sig.sign", Line: line, GoOut: out, Branch: fmt.Sprintf("v%d/%s", v.Major, sizeClass(n)),
 			Sample: map[string]interface{}{"op": "Sign", "version": v.Major, "message_len": n}})
+		// the streaming form under a Write split: same bytes as all-at-once
+		if how := writeSplit(r, n); how != "" {
+			l2 := line + how
+			o2 := goExec(l2)
+			emit(Case{Stream: "sig.sign.stream", Line: l2, GoOut: o2, Branch: fmt.Sprintf("v%d/%s/%s", v.Major, sizeClass(n), howClass(how)),
+				Sample: map[string]interface{}{"op": "NewSignStream", "version": v.Major, "message_len": n, "writes": strings.TrimSpace(how)},
+				Direct: func() string {
+					if o2 != out {
+						return fmt.Sprintf("streaming and all-at-once attached signing disagree: version=%d message_len=%d writes%s: stream %s vs one-shot %s", v.Major, n, how, trunc(o2, 100), trunc(out, 100))
+					}
+					return ""
+				}})
+		}
 		msg, ok := okBytes(out)
 		if !ok {
 			continue
@@ -122,9 +135,10 @@ func genSigncryptRoundTrip(ctx *Ctx, emit func(Case)) {
 		lens = append(lens, smallLen(r))
 	}
 	if ctx.Quick {
-		lens = append(lens, mib, mib+1)
+		lens = append(lens, mib, mib+1, mib+50)
 	} else {
 		lens = append(lens, boundaryLens...)
+		lens = append(lens, mib+50, mib+50, mib+50)
 	}
 	for _, n := range lens {
 		anon := r.Intn(3) == 0
@@ -178,6 +192,17 @@ func genSigncryptRoundTrip(ctx *Ctx, emit func(Case)) {
 		out := goExec(line)
 		emit(Case{Stream: "sc.seal", Line: line, GoOut: out, Branch: fmt.Sprintf("%s/anon=%v/kinds=%s", sizeClass(n), anon, kinds),
 			Sample: map[string]interface{}{"op": "SigncryptSeal", "plaintext_len": n, "recipients": kinds, "anonymous": anon}})
+		if how := writeSplit(r, n); how != "" {
+			l2 := line + how
+			o2 := goExec(l2)
+			emit(Case{Stream: "sc.seal.stream", Line: l2, GoOut: o2, Branch: fmt.Sprintf("%s/%s", sizeClass(n), howClass(how)),
+				Direct: func() string {
+					if o2 != out {
+						return fmt.Sprintf("streaming and all-at-once signcryption disagree: plaintext_len=%d writes%s: stream %s vs one-shot %s", n, how, trunc(o2, 100), trunc(out, 100))
+					}
+					return ""
+				}})
+		}
 		msg, ok := okBytes(out)
 		if !ok {
 			continue
